@@ -90,7 +90,7 @@ class Ctx:
         self.seed = seed
         self.repo = os.environ.get('VERIF_REPO', '/repo')
         self.inc = os.path.join(self.repo, 'code', 'include')
-        self.out = os.path.join(VERIF, 'out', prop)
+        self.out = os.path.join(os.environ.get('VERIF_OUT_DIR') or os.path.join(VERIF, 'out'), prop)
         os.makedirs(self.out, exist_ok=True)
         self.t0 = time.time()
         dl = os.environ.get('VERIF_DEADLINE_S')
@@ -228,7 +228,7 @@ def finish(ctx, meta):
     rc = 0
     new_viol = 0
     known_hit = 0
-    replay_dir = os.path.join(VERIF, 'out', 'replays')
+    replay_dir = os.path.join(os.environ.get('VERIF_OUT_DIR') or os.path.join(VERIF, 'out'), 'replays')
     os.makedirs(replay_dir, exist_ok=True)
     for sig in sorted(by_sig):
         vs = by_sig[sig]
@@ -291,8 +291,9 @@ def finish(ctx, meta):
     ev = dict(property_id=prop, tier=ctx.tier, seed=ctx.seed, level=meta['level'], coverage=cov,
               assumptions=meta.get('assumptions', []) + ctx.notes,
               wall_s=round(time.time() - ctx.t0, 2), violations=new_viol)
-    os.makedirs(os.path.join(VERIF, 'evidence'), exist_ok=True)
-    with open(os.path.join(VERIF, 'evidence', prop + '.json'), 'w') as f:
+    evdir = os.environ.get('VERIF_EVIDENCE_DIR') or os.path.join(VERIF, 'evidence')
+    os.makedirs(evdir, exist_ok=True)
+    with open(os.path.join(evdir, prop + '.json'), 'w') as f:
         json.dump(ev, f, indent=1, default=str)
     print('%s tier=%s evaluations=%d nontrivial=%d states=%s transitions=%s exhaustive=%s violations=%d known=%d wall=%.1fs'
           % (prop, ctx.tier, evaluations, cov['distinct_nontrivial'], cov.get('states'), cov.get('transitions'),
